@@ -65,7 +65,7 @@ def generate(tier, seed):
             pairs = rng.sample(pairs, 60)        # numeric functions always get the full product (extremes x extremes)
         for a, b in pairs: reqs.append("(%s %s %s)" % (nm, a, b))
         for n in (3, 4):
-            for _ in range(12 if tier == "quick" else 150):
+            for _ in range(30 if tier == "quick" else 400):
                 reqs.append("(%s %s)" % (nm, " ".join(rng.choice(ks) for _ in range(n))))
         # applied through the higher-order routes
         for a in rng.sample(ks, 4):
@@ -126,7 +126,7 @@ def generate(tier, seed):
         for u in users:
             reqs.append(h % u)
     # random programs with extreme numerals
-    for _ in range(1500 if tier == "quick" else 40000):
+    for _ in range(5000 if tier == "quick" else 200000):
         g = ProgGen(rng, max_depth=3, ticks=False, loops=False)   # literal replacement must not touch loop bounds
         p = g.program(1)
         for lit in ["10", "7", "3"]:
